@@ -661,7 +661,13 @@ func extractMinimalRegions(t *trie.Trie[bit256.Key, peer.ID], path bitstr.Key, s
 		return append(extractMinimalRegions(t.Branch(b), path+bitstr.Key(byte('0'+b)), size, order),
 			extractMinimalRegions(t.Branch(1-b), path+bitstr.Key(byte('1'-b)), size, order)...)
 	}
-	return []Region{{Prefix: path, Peers: t}}
+	// AllocateToKClosest walks the keys trie and the peers trie in lockstep from
+	// their roots (depth 0), and AssignKeysToRegions builds the keys of a region
+	// as a root trie. `t` is a subtrie at depth len(path): re-root it, otherwise
+	// keys are matched against the wrong bits of the peers' identifiers.
+	rooted := trie.New[bit256.Key, peer.ID]()
+	rooted.AddMany(AllEntries(t, order)...)
+	return []Region{{Prefix: path, Peers: rooted}}
 }
 
 // AssignKeysToRegions assigns the provided keys to the regions based on their
